@@ -246,6 +246,16 @@ def mon_c09(case, out):
     return bad + mon_c09_time(case, out)
 
 
+def mon_c17(case, out):
+    """RFC 7873 on the wire of the whole channel: no request over TCP carries a COOKIE option"""
+    bad = []
+    for op, evs, line in _iter(case, out):
+        for name, args in evs:
+            if name == "tx" and "tcp" in args and _kv(args).get("ck", "-") != "-":
+                bad.append(("cookie-over-tcp", "a request sent over TCP carries a COOKIE option: tx(%s)" % ",".join(args)[:160]))
+    return bad
+
+
 def mon_c09_time(case, out):
     """time-dependent parts of the failover policy, evaluated on the implementation's trace:
     (a) a failed server is probed only after `retrydelay` has passed since its latest failure;
